@@ -95,6 +95,17 @@ main(int argc, char **argv)
                         setitimer(ITIMER_REAL, &it, NULL);
                         continue;
                 }
+                if (!strcmp(c.t[0], "stepmode")) {
+                        /* every library call from now on runs under the trap flag with an empty SIGTRAP handler on the interrupted
+                         * stack: deterministic version of the signal storm (anything kept below rsp-128 is overwritten at once) */
+                        struct sigaction sa;
+                        memset(&sa, 0, sizeof sa);
+                        sa.sa_handler = storm_handler;
+                        sa.sa_flags = SA_RESTART;
+                        sigaction(SIGTRAP, &sa, NULL);
+                        vc_step = (int) cmd_i(&c, 1);
+                        continue;
+                }
                 if (!strcmp(c.t[0], "dump")) {
                         vc_dump_secrets = (int) cmd_i(&c, 1);
                         continue;
